@@ -30,6 +30,7 @@ func init() {
 	// ( 0 admin right ( path ... ) ) : the right is installed as the push right and, in a second user, as the
 	//     pull right, through auth.Save / auth.Get; both must give the same answer (2 marks a disagreement).
 	// ( 1 mask ( path ... ) )        : auth.NewPathMatcher(mask).Match(path)
+	// ( 2 ( save ... ) ( path ... ) ) : see case 2
 	commands["C16"] = func(c Val) Val {
 		switch c.At(0).Int() {
 		case 0:
@@ -54,6 +55,30 @@ func init() {
 					out[i] = 2
 				case a:
 					out[i] = 1
+				}
+			}
+			return B(out)
+		case 2:
+			// ( 2 ( ( admin password push pull updatePassword ) ... ) ( path ... ) ): the same user name is
+			// saved once per entry through auth.Save; then auth.Get(name).ValidatePermission, push and pull per path
+			auth.Reset(c16mem{})
+			for _, sv := range c.At(1).List() {
+				u := &auth.User{Name: "account", Password: sv.At(1).Str(), Admin: sv.At(0).Bool(),
+					PushAccess: sv.At(2).Str(), PullAccess: sv.At(3).Str()}
+				if err := auth.Save(u, sv.At(4).Bool()); err != nil {
+					panic(err)
+				}
+			}
+			paths := c.At(2).List()
+			out := make([]byte, 2*len(paths))
+			if u := auth.Get("account"); u != nil {
+				for i, p := range paths {
+					if u.ValidatePermission(p.Str(), auth.PushRight) {
+						out[2*i] = 1
+					}
+					if u.ValidatePermission(p.Str(), auth.PullRight) {
+						out[2*i+1] = 1
+					}
 				}
 			}
 			return B(out)
